@@ -212,6 +212,13 @@ class CoDomain(Domain):
             if isinstance(ev.node, ast.AST) and getattr(
                     ev.node, '_is_loop_test', False):
                 self._close_iteration(st, ev, from_test=True)
+        if k == 'cond' and ev.extra is True and ev.sym is not None:
+            # `<caught StopIteration>.value is None`: the coroutine returned
+            # nothing - there is no value to store (an identity test; a
+            # truthiness test would also skip 0, '' and other falsy returns)
+            import re as _re
+            if _re.fullmatch(r'\w+\$\d+\.value is None', ev.sym.text):
+                st.data['promise_value_stored'] = True
         if k == 'local' and self.mode == 'process':
             return self._maybe_focus(st, ev)
         if k == 'call' and ev.func is None:
